@@ -21,8 +21,39 @@ func ruleClientRegistrationPairing(c *Ctx, rule string) {
 		d, ok := i.(*ssa.Defer)
 		return ok && d.Call.StaticCallee() != nil && p.fnKey(d.Call.StaticCallee()) == "client.RpcMultiplexer.unregisterHandler"
 	}
-	bad := p.mustPass(reg.(ssa.Instruction), isDeferUnreg, true)
-	c.check(rule, "CallUnaryMethod:register→defer-unregister", bad == nil, "no exit between the registration and the deferral of its unregistration", p.ipos(reg.(ssa.Instruction)))
+	// an exit under "registration refused" (registerHandler returned an error) is not a leak, provided a refusing
+	// registerHandler has not inserted anything
+	regErr := ""
+	if rc, ok := reg.(*ssa.Call); ok && rc.Type().String() == "error" {
+		regErr = p.lpath(rc)
+	}
+	bad := p.mustPassUnless(reg.(ssa.Instruction), isDeferUnreg, func(ifi *ssa.If, succ int) bool {
+		if regErr == "" || ifi.Block() != reg.(ssa.Instruction).Block() {
+			return false
+		}
+		for _, a := range p.factsOf(f).atomsOf(ifi.Cond, succ == 0, map[*ssa.BasicBlock]AtomSet{}, 0) {
+			if a == atom("nonnil", regErr) {
+				return true
+			}
+		}
+		return false
+	})
+	c.check(rule, "CallUnaryMethod:register→defer-unregister", bad == nil, "no exit between a successful registration and the deferral of its unregistration", p.ipos(reg.(ssa.Instruction)))
+	if regErr != "" {
+		rh := p.MustFn("client.RpcMultiplexer.registerHandler")
+		okRefuse := true
+		for _, r := range returnsOf(rh) {
+			if isNilConst(retVals(r)[0]) {
+				continue
+			}
+			for _, mu := range p.MapUpdates(fieldKey{"client.RpcMultiplexer", "handlers"}) {
+				if mu.Parent() == rh && (instrDominates(mu, r) || reachFrom(mu.Block())[r.Block()]) {
+					okRefuse = false
+				}
+			}
+		}
+		c.check(rule, "registerHandler:refusal-inserts-nothing", okRefuse, "a registerHandler that returns an error has not inserted the channel", p.pos(rh.Pos()))
+	}
 	// (c) newStream: after a successful NewStreamReadWriter, teardown is called or handed to client.NewStream on every path
 	ns := p.MustFn("goat.ClientConn.newStream")
 	call := p.oneCall(ns, "client.RpcMultiplexer.NewStreamReadWriter", false).(*ssa.Call)
